@@ -8,7 +8,7 @@
 #include <string.h>
 #include "mla.h"
 
-#define MAXSLOT 128
+#define MAXSLOT 1300
 typedef struct {
   uint8_t *data; size_t len, cap;
   long sched[16]; int nsched, i;
@@ -91,7 +91,7 @@ int main(int argc, char **argv) {
   char outpath[1024] = "";
   static char decl[MAXSLOT][600]; static size_t decllens[MAXSLOT]; int ndecl = 0;
   MLAConfigHandle cfg = NULL; MLAArchiveHandle ar = NULL;
-  MLAArchiveFileHandle fh[MAXSLOT]; memset(fh, 0, sizeof fh);
+  static MLAArchiveFileHandle fh[MAXSLOT]; memset(fh, 0, sizeof fh);
   char line[4096];
   while (fgets(line, sizeof line, sc)) {
     char *tok[12]; int nt = 0;
@@ -135,7 +135,7 @@ int main(int argc, char **argv) {
       fflush(res);
     }
     else if (!strcmp(tok[0], "extract")) {
-      Src src; memset(&src, 0, sizeof src);
+      static Src src; memset(&src, 0, sizeof src);
       size_t al; src.data = (uint8_t *)slurp(tok[1], &al); src.len = al;
       src.nsched = sink.nsched; memcpy(src.sched, sink.sched, sizeof(sink.sched));
       src.ndecl = ndecl; memcpy(src.decl, decl, sizeof decl); memcpy(src.decllens, decllens, sizeof decllens);
